@@ -37,7 +37,8 @@ ASSUMPTIONS = [
     "distinct integer seeds are expected to give different screens; int-vs-sequence seeds with equal entropy are never compared",
 ]
 
-SEED_POOL = [0, 0, 1, 2, 7, 42, 12345, 2 ** 32, 2 ** 64 + 1, {"seq": [1, 2, 3]}, {"np": 0}, {"np": 77}]
+SEED_POOL = [0, 0, 1, 2, 7, 42, 12345, 2 ** 32, 2 ** 64 + 1, {"seq": [1, 2, 3]}, {"np": 0}, {"np": 77},
+             {"ss": 5, "shared": True}, {"ss": 99, "shared": True}, {"ss": 5}]
 LIB_CALLS = ["optimal_grouping", "equivalent_layers", "circle", "ft2", "centre_of_gravity", "phase_covariance", "covmat", "cn2_to_r0"]
 
 
@@ -55,6 +56,8 @@ def sizes(tier):
 def _seed_key(s):
     if isinstance(s, dict) and "np" in s:
         return repr(int(s["np"]))            # the same seed value, only in another integer type
+    if isinstance(s, dict) and "ss" in s:
+        return "ss%d" % int(s["ss"])         # a SeedSequence with this entropy, shared object or not
     return repr(s)
 
 
@@ -106,8 +109,14 @@ def gen_plan(rng, tier, index=0):
         # some infinite-screen actors restart their screen through the public make_initial_screen() after `restart` rows:
         # with the same seed the screen and every later row must replay
         restart = r.randint(0, max(0, rows - 1)) if (kind in ("VK", "KOL") and rows >= 1 and r.chance(0.3)) else None
-        actors.append({"kind": kind, "params": params, "seed": s1, "rows": rows, "twin_of": None, "group": g, "scribble": scrib, "restart": restart})
-        actors.append({"kind": kind, "params": params, "seed": s1, "rows": rows, "twin_of": a, "group": g, "scribble": scrib, "restart": restart})
+        # some actors checkpoint their screen (copy.deepcopy or a pickle round trip) before adding row `at`, and step the
+        # copy: the copy holds the same state, so it must predict the original's next rows, and stepping it must not
+        # influence the original
+        clone = ({"at": r.randint(1, rows), "rows": r.randint(1, 4), "how": r.choice(["deepcopy", "pickle", "copy"])}
+                 if (kind in ("VK", "KOL") and rows >= 1 and restart is None and r.chance(0.3)) else None)
+        actors.append({"kind": kind, "params": params, "seed": s1, "rows": rows, "twin_of": None, "group": g, "scribble": scrib, "restart": restart, "clone": clone})
+        actors.append({"kind": kind, "params": params, "seed": s1, "rows": rows, "twin_of": a, "group": g, "scribble": scrib, "restart": restart,
+                       "clone": (clone if r.chance(0.5) else None)})
         if kind in ("FT", "FTSH") and r.chance(0.3):
             # a third call with the same seed, later still
             actors.append({"kind": kind, "params": params, "seed": s1, "rows": rows, "twin_of": a, "group": g, "scribble": scrib})
@@ -169,6 +178,22 @@ class _Actor(object):
                     self.pc += 1
                     self.trace.append(("skipped",))
                     return self.trace[-1]
+                cl = sp.get("clone")
+                if cl and self.pc == cl["at"] and not getattr(self, "clone_trace", None):
+                    import copy
+                    import pickle
+                    if cl["how"] == "pickle":
+                        other = pickle.loads(pickle.dumps(self.obj))
+                    elif cl["how"] == "copy":
+                        other = copy.deepcopy(self.obj)
+                        other2 = copy.deepcopy(other)      # a copy of the copy, stepped first
+                        other2.add_row()
+                    else:
+                        other = copy.deepcopy(self.obj)
+                    self.clone_trace = []
+                    for _ in range(cl["rows"]):
+                        o2 = other.add_row()
+                        self.clone_trace.append(("ok", core.hbytes(repr(screens.abytes(o2)[:2]).encode() + screens.abytes(o2)[2])))
                 if sp.get("restart") is not None and self.pc == sp["restart"] + 1:
                     self.obj.make_initial_screen()
                     out = self.obj.scrn
@@ -227,6 +252,7 @@ def execute(plan, keep_log=False):
     log = core.EventLog(keep_log)
     screens.warm()
     seams.reset_ambient(plan["ambient"], plan.get("numba_threads", 1))
+    screens.reset_shared_seeds()
     specs = plan["actors"]
     actors = [_Actor(s) for s in specs]
     n = len(actors)
@@ -320,6 +346,19 @@ def execute(plan, keep_log=False):
     def pkey(s):
         return (s["kind"], repr(sorted(s["params"].items())))
 
+    for i, s in enumerate(specs):
+        ct = getattr(actors[i], "clone_trace", None)
+        if ct and s.get("clone"):
+            at = s["clone"]["at"]
+            tr = actors[i].trace
+            res.count("oracle.checkpoint_copies_compared")
+            for j, e in enumerate(ct):
+                if at + j < len(tr) and tr[at + j][0] == "ok" and e != tr[at + j]:
+                    res.violate("clone", "C06:copy-of-a-screen-not-isolated:%s:%s" % (s["kind"], s["clone"]["how"]),
+                                "actor %d (%s, seed %r): a %s of the screen taken before row %d produced %s as its row %d, the original "
+                                "produced %s: copy and original share state or the copy lost it"
+                                % (i, s["kind"], s["seed"], s["clone"]["how"], at, e, j + 1, tr[at + j]), -1)
+                    break
     for i, s in enumerate(specs):
         ra = getattr(actors[i], "restarted_at", None)
         if ra is not None and s["seed"] != "none":
